@@ -106,6 +106,7 @@ OPS1 = {
     "einxx_r": ("mg.einsum('...,...->', {0}, {0})", lambda t: __import__("mygrad").einsum("...,...->", t, t), lambda a: (a * a).sum(), lambda s: True),
     "catxx": ("mg.concatenate([{0}, {0}])", lambda t: __import__("mygrad").concatenate([t, t]), lambda a: np.concatenate([a, a]), lambda s: len(s) >= 1),
     "matxx": ("mg.matmul({0}, {0})", lambda t: __import__("mygrad").matmul(t, t), lambda a: (a * a).sum(), lambda s: len(s) == 1),
+    "pos32": ("mg.positive({0}, dtype=np.float32)", lambda t: __import__("mygrad").positive(t, dtype=np.float32), lambda a: +a, lambda s: True),
     "sum": ("{0}.sum()", lambda t: t.sum(), lambda a: a.sum(), lambda s: True),
     "sum0": (
         "{0}.sum(axis=0, keepdims=True)",
@@ -142,6 +143,9 @@ OPS2 = {
              lambda x, y: np.where(alt_mask(np.broadcast_shapes(np.shape(x), np.shape(y)), 1), x - y, 0.0)),
     "mseq_xyx": ("mg.multiply_sequence({0}, {1}, {0})", lambda x, y: _mg("multiply_sequence")(x, y, x), lambda x, y: x * y * x),
     "aseq_xyx": ("mg.add_sequence({0}, {1}, {0})", lambda x, y: _mg("add_sequence")(x, y, x), lambda x, y: x + y + x),
+    # ufunc calls whose result is narrower than their operands (explicit dtype=): the gradient flows back into wider tensors
+    "add32": ("mg.add({0}, {1}, dtype=np.float32)", lambda x, y: _mg("add")(x, y, dtype=np.float32), operator.add),
+    "sub16": ("mg.subtract({0}, {1}, dtype=np.float16)", lambda x, y: _mg("subtract")(x, y, dtype=np.float16), operator.sub),
     "matmul": ("{0} @ {1}", operator.matmul, operator.matmul),
     "max": ("mg.maximum({0}, {1})", _mg("maximum"), _cmax),
     "min": ("mg.minimum({0}, {1})", _mg("minimum"), _cmin),
